@@ -515,6 +515,61 @@ class World:
         return dict(base, klass='valid-do', expect={'kind': 'accept', 'calls': 1})
 
 
+def run_read_race(w, r, rng, inj_holder):
+    """an access (read or change) is atomic with storing and announcing its result: a change of the same parameter by a
+    second thread, injected before the k-th line of the generated read wrapper, either happens completely before the
+    driver is read or completely after the result was stored - afterwards the cache holds what the hardware holds"""
+    import frappy.core as C
+    from vlib import lineinject
+    hw = {'v': 1.0}
+    events = []
+
+    def read_x(self):
+        events.append(('read', hw['v']))
+        return hw['v']
+
+    def write_x(self, v):
+        events.append(('write', v))
+        hw['v'] = v
+        return v
+    cls = type('ReadRaceMod', (C.Module,), {'__module__': __name__, 'x': C.Parameter('x', C.FloatRange(0, 1000), readonly=False, default=1.0),
+                                            'read_x': read_x, 'write_x': write_x})
+    node = w.nodes.Node({'m': {'cls': cls, 'description': 'x'}}).build()
+    mod = node.secnode.modules['m']
+    wrapper = type(mod).read_x
+    if inj_holder.get('inj') is None:
+        inj_holder['inj'] = lineinject.LineInjector(wrapper, name='c04-read-race')
+    inj = inj_holder['inj']
+    k = rng.randint(1, 14)
+    v2 = float(rng.randint(2, 900))
+    errors = []
+
+    def other():
+        try:
+            mod.write_x(v2)
+        except Exception as e:
+            errors.append(repr(e))
+    inj.arm(k, other)
+    try:
+        mod.read_x()
+    except Exception as e:
+        errors.append(repr(e))
+    injected = inj.disarm()
+    r.count('read_race_runs')
+    if not injected:
+        r.count('read_race_point_not_reached')
+        return
+    r.count('read_race_injections')
+    r.case(('read-race', k), True)
+    case = {'kind': 'read-race', 'k': k, 'value_written_by_the_second_thread': v2, 'events': events}
+    if errors:
+        r.violation('C04/read-race/raises', f'{errors[:2]}', case)
+        return
+    if mod.parameters['x'].value != hw['v']:
+        r.violation('C04/read-race/cache-differs-from-hardware', f'a change to {v2} by a second thread before line {k} of the read wrapper: afterwards the hardware holds '
+                    f'{hw["v"]}, the cache {mod.parameters["x"].value} (driver events {events})', case)
+
+
 def run_limit_race(w, r, rng):
     """'satisfies the module's CURRENT dynamic limits': a change request that arrives while another thread (the poller)
     is inside an access method which moves the limit.  The driver write, if it happens, must see a value inside the
@@ -737,6 +792,13 @@ def run_shard(shard):
     for i in range(shard.get('nrace', 12)):
         run_limit_race(w, r, rng)
         run_struct_race(w, r, rng)
+    holder = {}
+    try:
+        for i in range(shard.get('nrace', 12) * 3):
+            run_read_race(w, r, rng, holder)
+    finally:
+        if holder.get('inj') is not None:
+            holder['inj'].close()
     return r.result()
 
 
